@@ -274,12 +274,15 @@ def is_var(node):
 
 def is_declared_symbol(node):
     """Return true if ``node`` is a symbol that is declared, defined or bound
-    in the current input (a constant, a function or a bound variable).
+    in the current input (a constant, a function, a bound variable, a datatype
+    constructor or selector).
 
     Requires that global information has been populated via
     ``collect_information``.
     """
-    return node.is_leaf() and node.data in __sort_lookup
+    return node.is_leaf() and (node.data in __sort_lookup
+                               or node in __datatypes_constructors
+                               or node in __datatypes_selectors)
 
 
 def is_piped_symbol(node):
